@@ -14,6 +14,8 @@ C06.f carried bytes count towards the minimum: the limit of the initial bulk rea
   the number of bytes carried over in the read-ahead buffer (buf.len() - pos), and the short-read test compares the
   bytes read against that same limit. Otherwise the position where the cut-point search starts depends on where the
   previous cut fell inside the 4 KiB read buffer, i.e. on read history instead of content.
+C06.g the validator's lower bound for chunk_min_size is at least the read-ahead buffer length - 1 (interval facts of
+  R-ARITH): the carry (< buffer length) can then never exceed min_size.
 C06.e the fixed-size chunker reads at most `size` bytes per chunk and stops at a short read.
 """
 import re
@@ -33,10 +35,19 @@ def run(ctx, rep):
     prog = ctx.prog
     for r, tx in (("C06.a", "chunker arithmetic cannot trap for accepted parameters"), ("C06.b", "max_size is tested before every push"),
                   ("C06.c", "read results are handled exhaustively"), ("C06.d", "the pushed byte is the hashed byte"), ("C06.e", "fixed-size chunks are bounded by `size`"),
-                  ("C06.f", "bytes carried in the read-ahead buffer count towards min_size")):
+                  ("C06.f", "bytes carried in the read-ahead buffer count towards min_size"),
+                  ("C06.g", "accepted min_size covers the largest possible carry")):
         rep.rule(r, tx)
     from rules import arith
     arith.run_c06(ctx, rep)
+    # ---- C06.g: the carry never exceeds the minimum chunk size -------------------------------------------
+    _, _, finv = arith.analyse_all(ctx)
+    mn = finv.get(("ChunkIter", "min_size"))
+    cap = finv.get(("ChunkIter.len", "buf"))
+    okg = mn is not None and cap is not None and mn[0] >= cap[1] - 1
+    rep.check("C06.g", "min-size-covers-carry", okg, where="crates/core/src/chunker/rabin.rs",
+              what=f"every accepted chunk_min_size ({mn}) is at least the read-ahead buffer length - 1 ({cap}): the bytes carried over from the previous chunk never exceed min_size" if okg else
+                   f"accepted chunk_min_size values {mn} can be smaller than the read-ahead buffer ({cap}): carried bytes beyond min_size are appended without testing the fingerprint (cut points skipped, max_size exceeded, cuts depend on buffer alignment)")
     NX = prog.find1(r"^<rustic_core::chunker::rabin::ChunkIter<R> as std::iter::Iterator>::next$")
     pushes = [(bb, t) for bb, t in NX.calls() if "callee" in t and callee(t).endswith("Vec::<T, A>::push")]
     slides = [(bb, t) for bb, t in NX.calls() if "callee" in t and re.search(r"(Rabin64|RollingHash64).*::slide$|::slide$", callee(t))]
@@ -110,6 +121,29 @@ def run(ctx, rep):
         after = NX.reachable_from(rb)
         rep.check("C06.c", "ok-zero-arm", has_ok0, where=where(NX, rb), what="a read of 0 bytes ends the stream (finished)")
         rep.check("C06.c", "interrupted-retried", bool(kind_calls) and intr, where=where(NX, rb), what="ErrorKind::Interrupted is retried (continue), not reported and not treated as end of input")
+        # the Interrupted retry goes back to the loop head with buf/pos untouched since the refill test
+        kb = kind_calls[0] if kind_calls else None
+        touched = []
+        if kb is not None:
+            hdrs = [h for (l, h) in C.back_edges(NX) if rb in C.loop_blocks(NX, h, l)]
+            # blocks between the loop head and the read call (inclusive): any &mut use of self.buf other than the read's own buffer argument
+            for h in hdrs:
+                backs = [(l2, h2) for (l2, h2) in C.back_edges(NX)]
+                region = NX.reachable_from(h, cut_edges=backs, cut_blocks=[rb]) | {rb}
+                for bb in region:
+                    if bb != rb and rb not in NX.reachable_from(bb, cut_edges=backs):
+                        continue
+                    t = NX.term(bb)
+                    if bb != rb and t["k"] == "call" and "callee" in t and re.search(r"Vec::<T, A>::(resize|truncate|clear|push|extend_from_slice|set_len|drain|insert|remove|append)$", callee(t)):
+                        pp = flow.place_path(NX, op_place(t["args"][0])) if op_place(t["args"][0]) else None
+                        if pp and "buf" in pp[1]:
+                            touched.append(f"{callee(t).rsplit('::', 1)[-1]} @{where(NX, bb)}")
+                    for s_ in NX.blocks[bb]["s"]:
+                        if s_[0] == "=" and place_has_field(s_[1], "pos", "rabin::ChunkIter"):
+                            touched.append(f"pos assigned @{where(NX, bb)}")
+        rep.check("C06.c", "retry-state-unchanged", kb is not None and not touched, where=where(NX, rb),
+                  what="between the refill test (buf.len() == pos) and the read nothing changes buf or pos: a retried (Interrupted) read finds the same state" if not touched else
+                       f"buf/pos are modified before the read ({sorted(set(touched))}): after an Interrupted read the refill test no longer holds and stale buffer bytes are consumed as input")
         rep.check("C06.c", "other-errors-reported", any(e in after for e in errs), where=where(NX, rb), what="any other read error is returned as an error item")
     carry_rule(ctx, rep, "C06.f")
     # ---- C06.e -------------------------------------------------------------------------------------
